@@ -1,8 +1,20 @@
 /-
-  Link between the KKT assembly `Kkt.kktAssembleFill` (≈10 different `fill_*` calls, each with
-  its own index map) and the fill engine `Csc.placeAll`: as far as the MATRIX is concerned
+  Link between the KKT assembly `Kkt.kktAssembleFill` (about ten different `fill_*` calls, each
+  with its own index map) and the fill engine `Csc.placeAll`: as far as the MATRIX is concerned
   (colptr counters, rowval, nzval) the whole assembly is ONE run of the engine over
   `Kkt.kktSchedule`.
+
+  * `KSpec K K' l` : matrix-only projection of `KktPlace.PlaceSpec`; `KSpec.append`/`KSpec.seq`
+    compose two runs (`rangesDisjoint_left/right` split the disjointness hypothesis);
+  * `blockSchedule_regular`, `missingDiagSchedule_regular`, `fill*_kspec` : every fill call;
+  * `fillSparsecone_kspec` : `csc_fill_sparsecone` runs `sparseSchedule`, provided the expansion
+    map fits the cone (`MapFits`: kind and index-vector lengths; `mapFits_expansionMap`);
+  * `coneStep_spec`, `conesFold_kspec` : the loop over the cones runs `conesSchedule`
+    (`triples_rng`: the zipped range starts are consecutive);
+  * `kktAssembleFill_spec` : the main theorem, under `MapsFit cones map.sparse_maps.toList`;
+    `kktAssembleFill_spec_new` : the same for `map = LDLDataMap.new P A cones` (no hypothesis).
+
+  Scalar type: only `[OfNat α 0]`; no arithmetic law is used (the statements hold for `Float`).
 -/
 import ClarabelModel.Kkt
 import ClarabelProofs.Lemmas.KktSchedule
@@ -178,5 +190,580 @@ theorem KSpec.seq {K K1 K2 : Csc α} {l1 l2 : List (Entry α)}
   have S1 := h1 (rangesDisjoint_left hdis)
   have S2 := h2 (rangesDisjoint_right S1.colptr_get hdis)
   exact S1.append S2 hdis
+
+
+-- ------------------------------------------------------------------ 4. the individual fill calls
+
+theorem mapM_ok_mem {ι β ε : Type} (f : ι → Except ε β) :
+    ∀ (l : List ι) (ys : List β), l.mapM f = .ok ys → ∀ y ∈ ys, ∃ x ∈ l, f x = .ok y := by
+  intro l
+  induction l with
+  | nil =>
+    intro ys h y hy
+    rw [List.mapM_nil] at h
+    cases pure_ok h
+    cases hy
+  | cons a t ih =>
+    intro ys h y hy
+    rw [List.mapM_cons] at h
+    obtain ⟨b, hb, h⟩ := bind_ok h
+    obtain ⟨bs, hbs, h⟩ := bind_ok h
+    cases pure_ok h
+    rcases List.mem_cons.mp hy with rfl | hy
+    · exact ⟨a, by simp, hb⟩
+    · obtain ⟨x, hx, hfx⟩ := ih bs hbs y hy
+      exact ⟨x, by simp [hx], hfx⟩
+
+variable [OfNat α 0]
+
+omit [OfNat α 0] in
+theorem blockSchedule_regular {M : Csc α} {r c : Nat} {sh : MatrixShape} {s : List (Entry α)}
+    (h : blockSchedule M r c sh = .ok s) : Regular s := by
+  unfold blockSchedule at h
+  obtain ⟨cols, hcols, h⟩ := bind_ok h
+  cases pure_ok h
+  intro e he
+  obtain ⟨col, hcol, hecol⟩ := List.mem_flatten.mp he
+  obtain ⟨i, _, hi⟩ := mapM_ok_mem _ _ _ hcols col hcol
+  obtain ⟨start, _, hi⟩ := bind_ok hi
+  obtain ⟨stop, _, hi⟩ := bind_ok hi
+  obtain ⟨j, _, hj⟩ := mapM_ok_mem _ _ _ hi e hecol
+  obtain ⟨rv, _, hj⟩ := bind_ok hj
+  obtain ⟨v, _, hj⟩ := bind_ok hj
+  cases pure_ok hj
+  cases sh <;> rfl
+
+theorem missingDiagSchedule_regular {M : Csc α} {s : List (Entry α)}
+    (h : missingDiagSchedule M 0 = .ok s) : Regular s := by
+  unfold missingDiagSchedule at h
+  obtain ⟨es, hes, h⟩ := bind_ok h
+  cases pure_ok h
+  intro e he
+  obtain ⟨col, hcol, hecol⟩ := List.mem_flatten.mp he
+  obtain ⟨i, _, hi⟩ := mapM_ok_mem _ _ _ hes col hcol
+  obtain ⟨b, _, hi⟩ := bind_ok hi
+  cases b with
+  | false =>
+    simp only [Bool.false_eq_true, if_false] at hi
+    cases pure_ok hi
+    cases hecol
+  | true =>
+    simp only [if_true] at hi
+    cases pure_ok hi
+    simp only [List.mem_singleton] at hecol
+    subst hecol
+    simp
+
+omit [OfNat α 0] in
+theorem fillBlock_of_sched {K M : Csc α} {mp : Array Nat} {r c : Nat} {sh : MatrixShape}
+    {s : List (Entry α)} (hs : blockSchedule M r c sh = .ok s) :
+    fillBlock K M mp r c sh = placeAll K mp s := by
+  unfold fillBlock
+  rw [hs]
+  rfl
+
+theorem fillMissingDiag_of_sched {K M : Csc α} {c : Nat}
+    {s : List (Entry α)} (hs : missingDiagSchedule M c = .ok s) :
+    fillMissingDiag K M c = (do let r ← placeAll K #[] s; pure r.1) := by
+  unfold fillMissingDiag
+  rw [hs]
+  rfl
+
+omit [OfNat α 0] in
+theorem fillBlock_kspec {K K' M : Csc α} {mp mp' : Array Nat} {r c : Nat} {sh : MatrixShape}
+    {s : List (Entry α)} (hs : blockSchedule M r c sh = .ok s)
+    (h : fillBlock K M mp r c sh = .ok (K', mp')) (hdis : RangesDisjoint K.colptr s) :
+    KSpec K K' s := by
+  rw [fillBlock_of_sched hs] at h
+  exact (placeAll_kspec (blockSchedule_regular hs) hdis h).1
+
+theorem fillMissingDiag_kspec {K K' M : Csc α} {s : List (Entry α)}
+    (hs : missingDiagSchedule M 0 = .ok s)
+    (h : fillMissingDiag K M 0 = .ok K') (hdis : RangesDisjoint K.colptr s) :
+    KSpec K K' s := by
+  rw [fillMissingDiag_of_sched hs] at h
+  obtain ⟨⟨K1, m1⟩, hp, h⟩ := bind_ok h
+  cases pure_ok h
+  exact (placeAll_kspec (missingDiagSchedule_regular hs) hdis hp).1
+
+theorem fillColvec_kspec {K K' : Csc α} {v v' : Array Nat} {r c n : Nat} (hn : v.size = n)
+    (h : fillColvec K v r c = .ok (K', v'))
+    (hdis : RangesDisjoint K.colptr (colvecSchedule (α := α) n r c)) :
+    KSpec K K' (colvecSchedule n r c) ∧ v'.size = n := by
+  subst hn
+  exact placeAll_kspec (colvecSchedule_regular _ _ _) hdis h
+
+theorem fillRowvec_kspec {K K' : Csc α} {v v' : Array Nat} {r c n : Nat} (hn : v.size = n)
+    (h : fillRowvec K v r c = .ok (K', v'))
+    (hdis : RangesDisjoint K.colptr (rowvecSchedule (α := α) n r c)) :
+    KSpec K K' (rowvecSchedule n r c) ∧ v'.size = n := by
+  subst hn
+  exact placeAll_kspec (rowvecSchedule_regular _ _ _) hdis h
+
+theorem fillDiag_kspec {K K' : Csc α} {v v' : Array Nat} {off d : Nat}
+    (h : fillDiag K v off d = .ok (K', v'))
+    (hdis : RangesDisjoint K.colptr (diagSchedule (α := α) off d)) :
+    KSpec K K' (diagSchedule off d) ∧ v'.size = v.size :=
+  placeAll_kspec (diagSchedule_regular _ _) hdis h
+
+/-- the schedule of `fill_dense_triangle` -/
+def denseSchedule (off d : Nat) (shape : MatrixTriangle) : List (Entry α) :=
+  match shape with
+  | .triu => denseTriuSchedule off d
+  | .tril => denseTrilSchedule off d
+
+theorem fillDenseTriangle_kspec {K K' : Csc α} {v v' : Array Nat} {off d : Nat}
+    {shape : MatrixTriangle}
+    (h : fillDenseTriangle K v off d shape = .ok (K', v'))
+    (hdis : RangesDisjoint K.colptr (denseSchedule (α := α) off d shape)) :
+    KSpec K K' (denseSchedule off d shape) ∧ v'.size = v.size := by
+  cases shape
+  · exact placeAll_kspec (denseTriuSchedule_regular _ _) hdis h
+  · exact placeAll_kspec (denseTrilSchedule_regular _ _) hdis h
+
+
+-- ------------------------------------------------------------------ 5. `csc_fill_sparsecone`
+
+/-- the index vectors of the expansion map `mp` have the lengths that the sparse-expandable
+cone `c` prescribes (and `mp` is of the kind of `c`).  This is what `expansion_map` allocates,
+see `mapFits_expansionMap`. -/
+def MapFits (c : ConeSpec) (mp : SparseMap) : Prop :=
+  match c, mp with
+  | .soc n, .soc u v _ => u.size = n ∧ v.size = n
+  | .genpow a b, .genpow p q r _ => p.size = a + b ∧ q.size = a ∧ r.size = b
+  | _, _ => False
+
+theorem mapFits_expansionMap {c : ConeSpec} {mp : SparseMap} (h : expansionMap c = some mp) :
+    MapFits c mp := by
+  cases c <;> simp only [expansionMap] at h
+  case soc d =>
+    split at h
+    · cases h; simp [MapFits]
+    · cases h
+  case genpow a b =>
+    cases h; simp [MapFits]
+  all_goals cases h
+
+/-- `dim1` as `_kkt_assemble_fill` computes it -/
+def coneDim1 (c : ConeSpec) : Nat :=
+  match c with
+  | .genpow a _ => a
+  | _ => 0
+
+theorem fillSparsecone_kspec {c : ConeSpec} {mp mp' : SparseMap} {K K' : Csc α}
+    {row col : Nat} {shape : MatrixTriangle} (hfit : MapFits c mp)
+    (h : fillSparsecone mp (coneDim1 c) K row col shape = .ok (K', mp'))
+    (hdis : RangesDisjoint K.colptr (sparseSchedule (α := α) c row col shape)) :
+    KSpec K K' (sparseSchedule c row col shape) ∧ MapFits c mp' ∧ mp'.pdim = mp.pdim := by
+  cases c <;> cases mp <;> simp only [MapFits] at hfit
+  case soc.soc n u v D =>
+    obtain ⟨hu, hv⟩ := hfit
+    unfold fillSparsecone at h
+    cases shape
+    · simp only [sparseSchedule] at hdis ⊢
+      simp only [] at h
+      obtain ⟨⟨Ka, va⟩, ha, h⟩ := bind_ok h
+      obtain ⟨⟨Kb, ub⟩, hb, h⟩ := bind_ok h
+      obtain ⟨x, hx, h⟩ := bind_ok h
+      cases pure_ok hx
+      obtain ⟨⟨Kc, Dc⟩, hc, h⟩ := bind_ok h
+      cases pure_ok h
+      have hd1 := rangesDisjoint_left hdis
+      have A := fillColvec_kspec hv ha (rangesDisjoint_left hd1)
+      have B := fillColvec_kspec hu hb (rangesDisjoint_right A.1.colptr_get hd1)
+      have AB := A.1.append B.1 hd1
+      have C := fillDiag_kspec hc (rangesDisjoint_right AB.colptr_get hdis)
+      exact ⟨AB.append C.1 hdis, ⟨B.2, A.2⟩, rfl⟩
+    · simp only [sparseSchedule] at hdis ⊢
+      simp only [] at h
+      obtain ⟨⟨Ka, va⟩, ha, h⟩ := bind_ok h
+      obtain ⟨⟨Kb, ub⟩, hb, h⟩ := bind_ok h
+      obtain ⟨x, hx, h⟩ := bind_ok h
+      cases pure_ok hx
+      obtain ⟨⟨Kc, Dc⟩, hc, h⟩ := bind_ok h
+      cases pure_ok h
+      have hd1 := rangesDisjoint_left hdis
+      have A := fillRowvec_kspec hv ha (rangesDisjoint_left hd1)
+      have B := fillRowvec_kspec hu hb (rangesDisjoint_right A.1.colptr_get hd1)
+      have AB := A.1.append B.1 hd1
+      have C := fillDiag_kspec hc (rangesDisjoint_right AB.colptr_get hdis)
+      exact ⟨AB.append C.1 hdis, ⟨B.2, A.2⟩, rfl⟩
+  case genpow.genpow a b p q r D =>
+    obtain ⟨hp, hq, hr⟩ := hfit
+    unfold fillSparsecone at h
+    simp only [coneDim1] at h
+    cases shape
+    · simp only [sparseSchedule] at hdis ⊢
+      simp only [] at h
+      obtain ⟨⟨Ka, qa⟩, ha, h⟩ := bind_ok h
+      obtain ⟨⟨Kb, rb⟩, hb, h⟩ := bind_ok h
+      obtain ⟨⟨Kc, pc⟩, hc, h⟩ := bind_ok h
+      obtain ⟨x, hx, h⟩ := bind_ok h
+      cases pure_ok hx
+      obtain ⟨⟨Kd, Dd⟩, hd, h⟩ := bind_ok h
+      cases pure_ok h
+      have hd1 := rangesDisjoint_left hdis
+      have hd2 := rangesDisjoint_left hd1
+      have A := fillColvec_kspec hq ha (rangesDisjoint_left hd2)
+      have B := fillColvec_kspec hr hb (rangesDisjoint_right A.1.colptr_get hd2)
+      have AB := A.1.append B.1 hd2
+      have C := fillColvec_kspec hp hc (rangesDisjoint_right AB.colptr_get hd1)
+      have ABC := AB.append C.1 hd1
+      have E := fillDiag_kspec hd (rangesDisjoint_right ABC.colptr_get hdis)
+      exact ⟨ABC.append E.1 hdis, ⟨C.2, A.2, B.2⟩, rfl⟩
+    · simp only [sparseSchedule] at hdis ⊢
+      simp only [] at h
+      obtain ⟨⟨Ka, qa⟩, ha, h⟩ := bind_ok h
+      obtain ⟨⟨Kb, rb⟩, hb, h⟩ := bind_ok h
+      obtain ⟨⟨Kc, pc⟩, hc, h⟩ := bind_ok h
+      obtain ⟨x, hx, h⟩ := bind_ok h
+      cases pure_ok hx
+      obtain ⟨⟨Kd, Dd⟩, hd, h⟩ := bind_ok h
+      cases pure_ok h
+      have hd1 := rangesDisjoint_left hdis
+      have hd2 := rangesDisjoint_left hd1
+      have A := fillRowvec_kspec hq ha (rangesDisjoint_left hd2)
+      have B := fillRowvec_kspec hr hb (rangesDisjoint_right A.1.colptr_get hd2)
+      have AB := A.1.append B.1 hd2
+      have C := fillRowvec_kspec hp hc (rangesDisjoint_right AB.colptr_get hd1)
+      have ABC := AB.append C.1 hd1
+      have E := fillDiag_kspec hd (rangesDisjoint_right ABC.colptr_get hdis)
+      exact ⟨ABC.append E.1 hdis, ⟨C.2, A.2, B.2⟩, rfl⟩
+
+
+-- ------------------------------------------------------------------ 6. the loop over the cones
+
+theorem pdim_of_mapFits {c : ConeSpec} {mp : SparseMap} (hfit : MapFits c mp)
+    (hsp : c.isSparseExpandable = true) : mp.pdim = conePdim c := by
+  cases c <;> cases mp <;> simp only [MapFits] at hfit <;>
+    simp [conePdim, SparseMap.pdim, hsp]
+
+/-- the sparse maps `ms` still to be consumed fit the sparse-expandable cones among `cones`,
+in order -/
+def MapsFit : List ConeSpec → List SparseMap → Prop
+  | [], _ => True
+  | c :: cs, ms =>
+    if c.isSparseExpandable = true then ∃ m ms', ms = m :: ms' ∧ MapFits c m ∧ MapsFit cs ms'
+    else MapsFit cs ms
+
+/-- `LDLDataMap::new` allocates fitting maps -/
+theorem mapsFit_filterMap (cones : List ConeSpec) : MapsFit cones (cones.filterMap expansionMap) := by
+  induction cones with
+  | nil => trivial
+  | cons c cs ih =>
+    unfold MapsFit
+    cases hm : expansionMap c with
+    | none =>
+      have hsp : ¬ c.isSparseExpandable = true := by
+        cases c <;> simp [expansionMap, ConeSpec.isSparseExpandable] at hm ⊢
+        exact hm
+      rw [if_neg hsp, List.filterMap_cons_none hm]
+      exact ih
+    | some m =>
+      have hsp : c.isSparseExpandable = true := by
+        cases c <;> simp [expansionMap, ConeSpec.isSparseExpandable] at hm ⊢
+        exact hm.1
+      rw [if_pos hsp, List.filterMap_cons_some hm]
+      exact ⟨m, _, rfl, mapFits_expansionMap hm, ih⟩
+
+theorem coneSchedule_eq (c : ConeSpec) (row pcol : Nat) (shape : MatrixTriangle) :
+    coneSchedule (α := α) c row pcol shape =
+      (if c.hsIsDiagonal = true then diagSchedule row c.numel else denseSchedule row c.numel shape)
+      ++ (if c.isSparseExpandable = true then sparseSchedule c row pcol shape else []) := by
+  cases shape <;> rfl
+
+/-- body of the loop over the cones in `_kkt_assemble_fill` (`n = A.n`) -/
+def coneStep (n : Nat) (shape : MatrixTriangle) (st : FillState α) (cone : ConeSpec)
+    (start bstart : Nat) : MErr (FillState α) :=
+  (if cone.hsIsDiagonal = true then
+      fillDiag st.K (st.Hsblocks.extract bstart (bstart + cone.blockLen)) (start + n) cone.numel
+    else
+      fillDenseTriangle st.K (st.Hsblocks.extract bstart (bstart + cone.blockLen)) (start + n)
+        cone.numel shape) >>= fun Kb =>
+  if cone.isSparseExpandable = true then
+    getE st.maps st.nextSparse "sparse_map_iter.next().unwrap()" >>= fun thismap =>
+    fillSparsecone thismap (coneDim1 cone) Kb.1 (start + n) st.pcol shape >>= fun Kn =>
+    setE st.maps st.nextSparse Kn.2 >>= fun maps =>
+    pure { K := Kn.1, Hsblocks := spliceAt st.Hsblocks bstart Kb.2, maps := maps,
+           pcol := st.pcol + thismap.pdim, nextSparse := st.nextSparse + 1 }
+  else
+    pure { K := Kb.1, Hsblocks := spliceAt st.Hsblocks bstart Kb.2, maps := st.maps,
+           pcol := st.pcol, nextSparse := st.nextSparse }
+
+theorem coneStep_spec {n : Nat} {shape : MatrixTriangle} {st st' : FillState α} {c : ConeSpec}
+    {s b : Nat} {rest : List ConeSpec}
+    (hfit : MapsFit (c :: rest) (st.maps.toList.drop st.nextSparse))
+    (hdis : RangesDisjoint st.K.colptr (coneSchedule (α := α) c (s + n) st.pcol shape))
+    (h : coneStep n shape st c s b = .ok st') :
+    KSpec st.K st'.K (coneSchedule c (s + n) st.pcol shape) ∧ st'.pcol = st.pcol + conePdim c ∧
+      MapsFit rest (st'.maps.toList.drop st'.nextSparse) := by
+  rw [coneSchedule_eq] at hdis ⊢
+  unfold coneStep at h
+  obtain ⟨⟨Kb, blk⟩, hb, h⟩ := bind_ok h
+  have hd1 := rangesDisjoint_left hdis
+  have HS : KSpec st.K Kb (if c.hsIsDiagonal = true then diagSchedule (α := α) (s + n) c.numel
+      else denseSchedule (s + n) c.numel shape) := by
+    by_cases hd : c.hsIsDiagonal = true
+    · rw [if_pos hd] at hb hd1 ⊢
+      exact (fillDiag_kspec hb hd1).1
+    · rw [if_neg hd] at hb hd1 ⊢
+      exact (fillDenseTriangle_kspec hb hd1).1
+  have hd2 := rangesDisjoint_right HS.colptr_get hdis
+  unfold MapsFit at hfit
+  by_cases hsp : c.isSparseExpandable = true
+  · rw [if_pos hsp] at h hdis hd2 hfit ⊢
+    obtain ⟨m, ms', hms, hmf, hrest⟩ := hfit
+    obtain ⟨thismap, hget, h⟩ := bind_ok h
+    obtain ⟨⟨Kn, newmap⟩, hsc, h⟩ := bind_ok h
+    obtain ⟨maps, hset, h⟩ := bind_ok h
+    cases pure_ok h
+    rw [getE_ok] at hget
+    rw [setE_ok] at hset
+    obtain ⟨hlt, hmaps⟩ := hset
+    have hm : m = thismap := by
+      have h0 : (st.maps.toList.drop st.nextSparse)[0]? = some m := by rw [hms]; rfl
+      rw [List.getElem?_drop, Nat.add_zero, Array.getElem?_toList, hget] at h0
+      cases h0; rfl
+    subst hm
+    have hms' : ms' = st.maps.toList.drop (st.nextSparse + 1) := by
+      have : (st.maps.toList.drop st.nextSparse).drop 1 = ms' := by rw [hms]; rfl
+      rw [← this, List.drop_drop]
+    have SP := fillSparsecone_kspec hmf hsc hd2
+    refine ⟨HS.append SP.1 hdis, ?_, ?_⟩
+    · show st.pcol + m.pdim = _
+      rw [pdim_of_mapFits hmf hsp]
+    · show MapsFit rest (maps.toList.drop (st.nextSparse + 1))
+      rw [hmaps, Array.toList_setIfInBounds, List.drop_set_of_lt (by omega), ← hms']
+      exact hrest
+  · rw [if_neg hsp] at h hfit ⊢
+    cases pure_ok h
+    refine ⟨?_, ?_, hfit⟩
+    · rw [List.append_nil]; exact HS
+    · simp [conePdim, hsp]
+
+/-- `ts` is `cones` zipped with consecutive start offsets beginning at `s` (and arbitrary
+block offsets, which do not influence the matrix) -/
+inductive Triples : Nat → List ConeSpec → List (ConeSpec × Nat × Nat) → Prop
+  | nil (s : Nat) : Triples s [] []
+  | cons (s : Nat) (c : ConeSpec) (b : Nat) {rest : List ConeSpec} {ts : List (ConeSpec × Nat × Nat)} :
+      Triples (s + c.numel) rest ts → Triples s (c :: rest) ((c, s, b) :: ts)
+
+def startsFrom (s : Nat) (xs : List Nat) : List Nat :=
+  (List.range xs.length).map (fun i => s + (xs.take i).sum)
+
+theorem startsFrom_cons (s x : Nat) (xs : List Nat) :
+    startsFrom s (x :: xs) = s :: startsFrom (s + x) xs := by
+  unfold startsFrom
+  simp only [List.length_cons]
+  rw [List.range_succ_eq_map]
+  simp only [List.map_cons, List.take_zero, List.sum_nil, Nat.add_zero, List.map_map]
+  congr 1
+  apply List.map_congr_left
+  intro i _
+  simp [List.take_succ_cons, Nat.add_assoc]
+
+theorem rangeStarts_eq (xs : List Nat) : rangeStarts xs = startsFrom 0 xs := by
+  unfold rangeStarts startsFrom
+  rw [exclusiveCumsum_eq]
+  simp
+
+theorem triples_zip (cones : List ConeSpec) : ∀ (s t : Nat),
+    Triples s cones (cones.zip ((startsFrom s (cones.map ConeSpec.numel)).zip
+      (startsFrom t (cones.map ConeSpec.blockLen)))) := by
+  induction cones with
+  | nil => intro s t; exact Triples.nil s
+  | cons c cs ih =>
+    intro s t
+    simp only [List.map_cons, startsFrom_cons, List.zip_cons_cons]
+    exact Triples.cons s c t (ih _ _)
+
+theorem triples_rng (cones : List ConeSpec) :
+    Triples 0 cones (cones.zip ((rngConesStart cones).zip (rngBlocksStart cones))) := by
+  unfold rngConesStart rngBlocksStart
+  rw [rangeStarts_eq, rangeStarts_eq]
+  exact triples_zip cones 0 0
+
+theorem conesFold_kspec {n : Nat} {shape : MatrixTriangle}
+    (f : FillState α → ConeSpec × Nat × Nat → MErr (FillState α))
+    (hf : ∀ st c s b, f st (c, s, b) = coneStep n shape st c s b)
+    {s0 : Nat} {cones : List ConeSpec} {ts : List (ConeSpec × Nat × Nat)} (T : Triples s0 cones ts) :
+    ∀ (st st' : FillState α), MapsFit cones (st.maps.toList.drop st.nextSparse) →
+      RangesDisjoint st.K.colptr (conesSchedule (α := α) cones (s0 + n) st.pcol shape) →
+      ts.foldlM f st = .ok st' →
+      KSpec st.K st'.K (conesSchedule cones (s0 + n) st.pcol shape) := by
+  induction T with
+  | nil s =>
+    intro st st' _ _ h
+    rw [List.foldlM_nil] at h
+    cases pure_ok h
+    exact KSpec.nil _
+  | cons s c b T ih =>
+    intro st st' hfit hdis h
+    rw [List.foldlM_cons] at h
+    obtain ⟨st1, h1, h⟩ := bind_ok h
+    rw [hf] at h1
+    simp only [conesSchedule] at hdis ⊢
+    obtain ⟨S1, hp, hfit1⟩ := coneStep_spec hfit (rangesDisjoint_left hdis) h1
+    have hd2 := rangesDisjoint_right S1.colptr_get hdis
+    rw [← hp, Nat.add_right_comm] at hd2
+    have S2 := ih st1 st' hfit1 hd2 h
+    rw [hp, Nat.add_right_comm] at S2
+    exact S1.append S2 hdis
+
+
+-- ------------------------------------------------------------------ 7. the whole assembly
+
+theorem kktAssembleFill_kspec (K K' P A : Csc α) (cones : List ConeSpec) (map map' : LDLDataMap)
+    (shape : MatrixTriangle) (sched : List (Entry α))
+    (hmaps : MapsFit cones map.sparse_maps.toList)
+    (hs : kktSchedule P A cones shape = .ok sched)
+    (hdis : RangesDisjoint (colcountToColptr K).colptr sched)
+    (h : kktAssembleFill K P A cones map shape = .ok (K', map')) :
+    ∃ Kf, KSpec (colcountToColptr K) Kf sched ∧ backshiftColptrs Kf = .ok K' := by
+  unfold kktSchedule at hs
+  unfold kktAssembleFill at h
+  cases shape
+  · simp only [] at hs h
+    obtain ⟨sP, hsP, hs⟩ := bind_ok hs
+    obtain ⟨sD, hsD, hs⟩ := bind_ok hs
+    obtain ⟨sA, hsA, hs⟩ := bind_ok hs
+    obtain ⟨head, hhead, hs⟩ := bind_ok hs
+    cases pure_ok hhead
+    cases pure_ok hs
+    obtain ⟨⟨K1, mapP⟩, h1, h⟩ := bind_ok h
+    obtain ⟨K2, h2, h⟩ := bind_ok h
+    obtain ⟨⟨K3, mapA⟩, h3, h⟩ := bind_ok h
+    obtain ⟨x, hx, h⟩ := bind_ok h
+    cases pure_ok hx
+    obtain ⟨st, hfold, h⟩ := bind_ok h
+    obtain ⟨Kb, hback, h⟩ := bind_ok h
+    have hK : Kb = K' := by
+      repeat' split at h
+      all_goals
+        first
+        | (obtain ⟨_, hb, _⟩ := bind_ok h; cases hb; done)
+        | (obtain ⟨_, hb, h⟩ := bind_ok h; cases pure_ok hb; cases pure_ok h; rfl)
+    subst hK
+    refine ⟨st.K, ?_, hback⟩
+    simp only [] at h2 hfold
+    have hd1 := rangesDisjoint_left hdis
+    have hd2 := rangesDisjoint_left hd1
+    have S1 := fillBlock_kspec hsP h1 (rangesDisjoint_left hd2)
+    have S2 := fillMissingDiag_kspec hsD h2 (rangesDisjoint_right S1.colptr_get hd2)
+    have S12 := S1.append S2 hd2
+    have S3 := fillBlock_kspec hsA h3 (rangesDisjoint_right S12.colptr_get hd1)
+    have S123 := S12.append S3 hd1
+    have hd3 := rangesDisjoint_right S123.colptr_get hdis
+    have SC := conesFold_kspec (n := A.n) (shape := .triu) _
+      (by intro st c s b; simp only [coneStep]; split <;> rfl) (triples_rng cones)
+      { K := K3, Hsblocks := map.Hsblocks, maps := map.sparse_maps, pcol := A.m + A.n, nextSparse := 0 } st
+      hmaps (by rw [Nat.zero_add]; exact hd3) hfold
+    rw [Nat.zero_add] at SC
+    exact S123.append SC hdis
+  · simp only [] at hs h
+    obtain ⟨sD, hsD, hs⟩ := bind_ok hs
+    obtain ⟨sP, hsP, hs⟩ := bind_ok hs
+    obtain ⟨sA, hsA, hs⟩ := bind_ok hs
+    obtain ⟨head, hhead, hs⟩ := bind_ok hs
+    cases pure_ok hhead
+    cases pure_ok hs
+    obtain ⟨K1, h1, h⟩ := bind_ok h
+    obtain ⟨⟨K2, mapP⟩, h2, h⟩ := bind_ok h
+    obtain ⟨⟨K3, mapA⟩, h3, h⟩ := bind_ok h
+    obtain ⟨x, hx, h⟩ := bind_ok h
+    cases pure_ok hx
+    obtain ⟨st, hfold, h⟩ := bind_ok h
+    obtain ⟨Kb, hback, h⟩ := bind_ok h
+    have hK : Kb = K' := by
+      repeat' split at h
+      all_goals
+        first
+        | (obtain ⟨_, hb, _⟩ := bind_ok h; cases hb; done)
+        | (obtain ⟨_, hb, h⟩ := bind_ok h; cases pure_ok hb; cases pure_ok h; rfl)
+    subst hK
+    refine ⟨st.K, ?_, hback⟩
+    simp only [] at h3 hfold
+    have hd1 := rangesDisjoint_left hdis
+    have hd2 := rangesDisjoint_left hd1
+    have S1 := fillMissingDiag_kspec hsD h1 (rangesDisjoint_left hd2)
+    have S2 := fillBlock_kspec hsP h2 (rangesDisjoint_right S1.colptr_get hd2)
+    have S12 := S1.append S2 hd2
+    have S3 := fillBlock_kspec hsA h3 (rangesDisjoint_right S12.colptr_get hd1)
+    have S123 := S12.append S3 hd1
+    have hd3 := rangesDisjoint_right S123.colptr_get hdis
+    have SC := conesFold_kspec (n := A.n) (shape := .tril) _
+      (by intro st c s b; simp only [coneStep]; split <;> rfl) (triples_rng cones)
+      { K := K3, Hsblocks := map.Hsblocks, maps := map.sparse_maps, pcol := A.m + A.n, nextSparse := 0 } st
+      hmaps (by rw [Nat.zero_add]; exact hd3) hfold
+    rw [Nat.zero_add] at SC
+    exact S123.append SC hdis
+
+theorem exclusiveCumsum_length (xs : List Nat) : (exclusiveCumsum xs).length = xs.length := by
+  rw [exclusiveCumsum_eq]; simp
+
+/-- **Main theorem.**  As far as the matrix is concerned, `_kkt_assemble_fill` is one run of the
+fill engine over `kktSchedule`.  Hypothesis `hmaps`: the sparse expansion maps have the index
+vector lengths prescribed by the sparse-expandable cones (true for `LDLDataMap.new`, see
+`kktAssembleFill_spec_new`). -/
+theorem kktAssembleFill_spec (K K' P A : Csc α) (cones : List ConeSpec) (map map' : LDLDataMap)
+    (shape : MatrixTriangle) (sched : List (Entry α))
+    (hmaps : MapsFit cones map.sparse_maps.toList)
+    (hs : kktSchedule P A cones shape = .ok sched)
+    (hdis : RangesDisjoint (colcountToColptr K).colptr sched)
+    (h : kktAssembleFill K P A cones map shape = .ok (K', map')) :
+    let ptr0 := (colcountToColptr K).colptr
+    K'.m = K.m ∧ K'.n = K.n ∧
+    K'.rowval.size = K.rowval.size ∧ K'.nzval.size = K.nzval.size ∧ K'.colptr.size = K.colptr.size ∧
+    (0 < K.colptr.size → K'.colptr[0]? = some 0) ∧
+    (∀ c, c + 1 < K.colptr.size → K'.colptr[c + 1]? = (ptr0[c]?).map (· + cnt c sched)) ∧
+    (∀ i e, sched[i]? = some e → ∃ d, destOf ptr0 sched i = some d ∧
+        K'.rowval[d]? = some e.row ∧ K'.nzval[d]? = some e.val) ∧
+    (∀ pos, (∀ i, destOf ptr0 sched i ≠ some pos) →
+        K'.rowval[pos]? = K.rowval[pos]? ∧ K'.nzval[pos]? = K.nzval[pos]?) := by
+  intro ptr0
+  obtain ⟨Kf, S, hback⟩ := kktAssembleFill_kspec K K' P A cones map map' shape sched hmaps hs hdis h
+  have hsz0 : ptr0.size = K.colptr.size := by
+    show (exclusiveCumsum K.colptr.toList).toArray.size = _
+    simp [exclusiveCumsum_length]
+  have hszf : Kf.colptr.size = K.colptr.size := by rw [S.colptr_size]; exact hsz0
+  unfold backshiftColptrs at hback
+  split at hback
+  · cases hback
+  · rename_i hne
+    cases pure_ok hback
+    refine ⟨S.m_eq, S.n_eq, S.rowval_size, S.nzval_size, ?_, ?_, ?_, S.written, S.untouched⟩
+    · show (0 :: Kf.colptr.toList.dropLast).toArray.size = _
+      have : Kf.colptr.toList.length ≠ 0 := by
+        intro h0; exact hne (List.eq_nil_of_length_eq_zero h0)
+      simp only [List.size_toArray, List.length_cons, List.length_dropLast]
+      simp only [Array.length_toList] at this ⊢
+      omega
+    · intro _
+      show (0 :: Kf.colptr.toList.dropLast).toArray[0]? = some 0
+      simp
+    · intro c hc
+      show (0 :: Kf.colptr.toList.dropLast).toArray[c + 1]? = _
+      rw [List.getElem?_toArray, List.getElem?_cons_succ, List.getElem?_dropLast]
+      rw [if_pos (by simp only [Array.length_toList]; omega), Array.getElem?_toList]
+      exact S.colptr_get c
+
+/-- the same for the maps allocated by `LDLDataMap::new` -/
+theorem kktAssembleFill_spec_new (K K' P A : Csc α) (cones : List ConeSpec) (map' : LDLDataMap)
+    (shape : MatrixTriangle) (sched : List (Entry α))
+    (hs : kktSchedule P A cones shape = .ok sched)
+    (hdis : RangesDisjoint (colcountToColptr K).colptr sched)
+    (h : kktAssembleFill K P A cones (LDLDataMap.new P A cones) shape = .ok (K', map')) :
+    let ptr0 := (colcountToColptr K).colptr
+    K'.m = K.m ∧ K'.n = K.n ∧
+    K'.rowval.size = K.rowval.size ∧ K'.nzval.size = K.nzval.size ∧ K'.colptr.size = K.colptr.size ∧
+    (0 < K.colptr.size → K'.colptr[0]? = some 0) ∧
+    (∀ c, c + 1 < K.colptr.size → K'.colptr[c + 1]? = (ptr0[c]?).map (· + cnt c sched)) ∧
+    (∀ i e, sched[i]? = some e → ∃ d, destOf ptr0 sched i = some d ∧
+        K'.rowval[d]? = some e.row ∧ K'.nzval[d]? = some e.val) ∧
+    (∀ pos, (∀ i, destOf ptr0 sched i ≠ some pos) →
+        K'.rowval[pos]? = K.rowval[pos]? ∧ K'.nzval[pos]? = K.nzval[pos]?) :=
+  kktAssembleFill_spec K K' P A cones _ map' shape sched
+    (by show MapsFit cones (cones.filterMap expansionMap).toArray.toList
+        exact mapsFit_filterMap cones) hs hdis h
 
 end Clarabel.Lemmas.KktFillLink
